@@ -391,6 +391,13 @@ func (p *prog) stepInner(idx int, toks []string) *rec {
 				return tensor.New(tensor.WithShape(shape...), tensor.WithBacking(backing), tensor.AsFortran(nil)), nil
 			case "Fconv":
 				return tensor.New(tensor.WithShape(shape...), tensor.AsFortran(backing)), nil
+			// the same constructors with the options given in another order (the result must not depend on it)
+			case "C1":
+				return tensor.New(tensor.WithBacking(backing), tensor.WithShape(shape...)), nil
+			case "Fraw1":
+				return tensor.New(tensor.AsFortran(nil), tensor.WithShape(shape...), tensor.WithBacking(backing)), nil
+			case "Fraw2":
+				return tensor.New(tensor.WithBacking(backing), tensor.AsFortran(nil), tensor.WithShape(shape...)), nil
 			}
 			return nil, fmt.Errorf("bad order")
 		})
